@@ -40,9 +40,19 @@ def provoking_edit(draw, spec):
     plain_jobs = [j for j in comp["jobs"] if spec["objs"][j]["cls"] == "Job"]
     if plain_jobs:
         kinds += ["negative_store"]
+    steps_ = sorted(n for n in S.spec_reachable(spec) if spec["objs"][n]["cls"] == "UsageJourneyStep")
+    if "job_purge" in spec["objs"] and steps_ and S.job_server(spec, "job_purge") in comp["servers"]:
+        kinds += ["list_purge", "list_purge"]
     if not kinds:
         return draw(G.quantity_edit(spec))
     k = draw(st.sampled_from(kinds))
+    if k == "list_purge":
+        # an in-place list operation that fails during recomputation: a job deleting far more than is stored
+        stp = draw(st.sampled_from(steps_))
+        m = draw(st.sampled_from(["append", "iadd", "extend", "insert"]))
+        args = {"append": ["job_purge"], "iadd": [["job_purge"]], "extend": [["job_purge"]],
+                "insert": [0, "job_purge"]}[m]
+        return dict(op="listop", obj=stp, attr="jobs", method=m, args=args, provoke="list_purge")
     if k in ("base_ram", "base_compute", "utilization", "fixed_server", "tiny_ram"):
         s = draw(st.sampled_from(comp["servers"]))
         e = spec["objs"][s]
@@ -81,10 +91,27 @@ def provoking_edit(draw, spec):
 @st.composite
 def cases(draw, max_steps):
     spec = draw(G.specs(max_len=24, long_prob=0.0))
+    plain = [s_ for s_ in F.spec_components(spec)["servers"] if spec["objs"][s_]["cls"] != "GPUServer"]
+    if plain:
+        # a spare job that deletes far more than any storage holds: putting it in a step makes recomputation fail
+        spec["objs"]["job_purge"] = {"cls": "Job", "server": plain[0], "data_stored": [-1e6, "TB"],
+                                     "request_duration": [1.0, "s"]}
     hist, cur = [], spec
     n = draw(st.integers(3, max_steps))
     for i in range(n):
-        if draw(st.floats(0, 1)) < 0.45:
+        last = hist[-1] if hist else None
+        if last is not None and last.get("provoke") == "list_purge" and draw(st.booleans()):
+            # right after a failed in-place operation: another in-place operation on the very same list
+            pool = sorted(S.names_of(cur, S.JOB_CLS))
+            pool = [j for j in pool if j != "job_purge"] or pool
+            e = dict(op="listop", obj=last["obj"], attr="jobs",
+                     method=draw(st.sampled_from(["append", "iadd", "extend"])),
+                     args=[draw(st.sampled_from(pool))])
+            if e["method"] != "append":
+                e["args"] = [[e["args"][0]]]
+            if not G._keeps_profile(cur, E.apply_spec(cur, e)):
+                e = draw(G.any_edit(cur))
+        elif draw(st.floats(0, 1)) < 0.45:
             e = draw(provoking_edit(cur))
         else:
             e = draw(G.any_edit(cur))
